@@ -226,81 +226,69 @@ def divrem_euclidean_qr_1 (x : List Nat) (d : Nat) : List Nat × Nat :=
   let (qs, r) := euclidLoop d i s x.reverse 0
   (qs.reverse, r >>> s)
 
+/-- `umul_ppmm (h, l, a, b); add_ssaaaa (sh, sl, sh, sl, h, l)`: accumulate a product into ⟨sh,sl⟩. -/
+def accMul (s : Nat × Nat) (a b : Nat) : Nat × Nat :=
+  let p := umul_ppmm a b
+  add_ssaaaa s.1 s.2 p.1 p.2
+
+/-- `umul_ppmm (th, tl, th, db); add_ssaaaa (th, tl, th, tl, sh, sl)`: new ⟨th,tl⟩ = th·db + ⟨sh,sl⟩. -/
+def mulAcc (a b : Nat) (s : Nat × Nat) : Nat × Nat :=
+  let p := umul_ppmm a b
+  add_ssaaaa p.1 p.2 s.1 s.2
+
+/-- `umul_ppmm (sh, sl, a, b); add_ssaaaa (sh, sl, sh, sl, 0, x)`. -/
+def mulAddLimb (a b x : Nat) : Nat × Nat :=
+  let p := umul_ppmm a b
+  add_ssaaaa p.1 p.2 0 x
+
+/-- the closing `umul_ppmm (h, l, th, db[0]); add_ssaaaa (h, l, h, l, 0, tl)`; returns (rem[0], rem[1]) = (l, h). -/
+def foldFin (db0 th tl : Nat) : Nat × Nat :=
+  let s := mulAddLimb th db0 tl
+  (s.2, s.1)
+
+/-- loop body of mpn_mod_1_1 (mod_1_1.c:43-49): returns the new (h, l). -/
+def fold1Step (db0 db1 : Nat) (st : Nat × Nat) (xj : Nat) : Nat × Nat :=
+  mulAcc st.1 db1 (mulAddLimb st.2 db0 xj)
+
 /-- mpn_mod_1_1 (mpn/generic/mod_1_1.c:28-54) on the most-significant-first list h :: l :: rest. -/
-def mod_1_1Go (db0 db1 : Nat) : List Nat → Nat → Nat → Nat × Nat
-  | [], h, l =>
-      let (sh, sl) := umul_ppmm h db0
-      let (sh, sl) := add_ssaaaa sh sl 0 l
-      (sl, sh)                                   -- rem[0], rem[1]
-  | xj :: xs, h, l =>
-      let (sh, sl) := umul_ppmm l db0
-      let (sh, sl) := add_ssaaaa sh sl 0 xj
-      let (h, l) := umul_ppmm h db1
-      let (h, l) := add_ssaaaa h l sh sl
-      mod_1_1Go db0 db1 xs h l
+def mod_1_1Go (db0 db1 : Nat) (rest : List Nat) (h l : Nat) : Nat × Nat :=
+  let st := rest.foldl (fold1Step db0 db1) (h, l)
+  foldFin db0 st.1 st.2
+
+/-- loop body of mpn_mod_1_2 (mod_1_2.c:45-53): returns the new (th, tl). -/
+def fold2Step (db0 db1 db2 xj1 xj th tl : Nat) : Nat × Nat :=
+  mulAcc th db2 (accMul (mulAddLimb xj1 db0 xj) tl db1)
 
 /-- mpn_mod_1_2 (mpn/generic/mod_1_2.c:29-66), state (th, tl), remaining limbs most significant first. -/
 def mod_1_2Go (db0 db1 db2 : Nat) : List Nat → Nat → Nat → Nat × Nat
   | xj1 :: xj :: xs, th, tl =>
-      let (sh, sl) := umul_ppmm xj1 db0
-      let (sh, sl) := add_ssaaaa sh sl 0 xj
-      let (h, l) := umul_ppmm tl db1
-      let (sh, sl) := add_ssaaaa sh sl h l
-      let (th, tl) := umul_ppmm th db2
-      let (th, tl) := add_ssaaaa th tl sh sl
-      mod_1_2Go db0 db1 db2 xs th tl
+      mod_1_2Go db0 db1 db2 xs (fold2Step db0 db1 db2 xj1 xj th tl).1 (fold2Step db0 db1 db2 xj1 xj th tl).2
   | [x0], th, tl =>                              -- j > -2
-      let (sh, sl) := umul_ppmm tl db0
-      let (sh, sl) := add_ssaaaa sh sl 0 x0
-      let (th, tl) := umul_ppmm th db1
-      let (th, tl) := add_ssaaaa th tl sh sl
-      let (h, l) := umul_ppmm th db0
-      let (h, l) := add_ssaaaa h l 0 tl
-      (l, h)
-  | [], th, tl =>
-      let (h, l) := umul_ppmm th db0
-      let (h, l) := add_ssaaaa h l 0 tl
-      (l, h)
+      let t := mulAcc th db1 (mulAddLimb tl db0 x0)
+      foldFin db0 t.1 t.2
+  | [], th, tl => foldFin db0 th tl
+
+/-- loop body of mpn_mod_1_3 (mod_1_3.c:47-57): returns the new (th, tl). -/
+def fold3Step (db0 db1 db2 db3 xj2 xj1 xj th tl : Nat) : Nat × Nat :=
+  mulAcc th db3 (accMul (accMul (mulAddLimb xj1 db0 xj) xj2 db1) tl db2)
 
 /-- mpn_mod_1_3 (mpn/generic/mod_1_3.c:29-81). -/
 def mod_1_3Go (db0 db1 db2 db3 : Nat) : List Nat → Nat → Nat → Nat × Nat
   | xj2 :: xj1 :: xj :: xs, th, tl =>
-      let (sh, sl) := umul_ppmm xj1 db0
-      let (sh, sl) := add_ssaaaa sh sl 0 xj
-      let (h, l) := umul_ppmm xj2 db1
-      let (sh, sl) := add_ssaaaa sh sl h l
-      let (h, l) := umul_ppmm tl db2
-      let (sh, sl) := add_ssaaaa sh sl h l
-      let (th, tl) := umul_ppmm th db3
-      let (th, tl) := add_ssaaaa th tl sh sl
-      mod_1_3Go db0 db1 db2 db3 xs th tl
+      mod_1_3Go db0 db1 db2 db3 xs (fold3Step db0 db1 db2 db3 xj2 xj1 xj th tl).1
+        (fold3Step db0 db1 db2 db3 xj2 xj1 xj th tl).2
   | [x1, x0], th, tl =>                          -- j == -1: jj = 2
-      let (sh, sl) := umul_ppmm x1 db0
-      let (sh, sl) := add_ssaaaa sh sl 0 x0
-      let (h, l) := umul_ppmm tl db1
-      let (sh, sl) := add_ssaaaa sh sl h l
-      let (th, tl) := umul_ppmm th db2
-      let (th, tl) := add_ssaaaa th tl sh sl
-      let (h, l) := umul_ppmm th db0
-      let (h, l) := add_ssaaaa h l 0 tl
-      (l, h)
+      let t := mulAcc th db2 (accMul (mulAddLimb x1 db0 x0) tl db1)
+      foldFin db0 t.1 t.2
   | [x0], th, tl =>                              -- j == -2: jj = 1, sh = 0, sl = xp[0]
-      let (h, l) := umul_ppmm tl db0
-      let (sh, sl) := add_ssaaaa 0 x0 h l
-      let (th, tl) := umul_ppmm th db1
-      let (th, tl) := add_ssaaaa th tl sh sl
-      let (h, l) := umul_ppmm th db0
-      let (h, l) := add_ssaaaa h l 0 tl
-      (l, h)
-  | [], th, tl =>
-      let (h, l) := umul_ppmm th db0
-      let (h, l) := add_ssaaaa h l 0 tl
-      (l, h)
+      let t := mulAcc th db1 (accMul (0, x0) tl db0)
+      foldFin db0 t.1 t.2
+  | [], th, tl => foldFin db0 th tl
 
 /-- final reduction shared by the mpn_mod_1_k_wrap functions (divrem_euclidean_r_1.c:61-63):
     udiv_qrnnd_preinv (dummy, ret, (sh<<c) | ((sl>>(63-c))>>1), sl<<c, ds, i); return ret>>c. -/
 def modWrapFinal (sl sh c ds i : Nat) : Nat :=
-  let (_, ret) := udiv_qrnnd_preinv (((sh <<< c) % B) ||| ((sl >>> (63 - c)) >>> 1)) ((sl <<< c) % B) ds i
+  let ret := (udiv_qrnnd_preinv (((sh <<< c) % B) ||| ((sl >>> (63 - c)) >>> 1)) ((sl <<< c) % B) ds i).2
   ret >>> c
 
 /-- mpn_mod_1_1_wrap (divrem_euclidean_r_1.c:29-66). -/
